@@ -9,6 +9,10 @@ def c25(tier, seed):
     c.run_cases(texe, ['--dir', c.scratch], n, per_case_timeout=60, workers=16, label='tsan')
     aexe = c.build('asan', ['conc_send'])['conc_send']
     c.run_cases(aexe, ['--dir', c.scratch], 48 if c.quick else 1500, per_case_timeout=60, workers=16, label='asan')
+    inc = [v for v in c.violations if v.key.startswith('inconclusive:')]
+    if inc:
+        c.violations = [v for v in c.violations if not v.key.startswith('inconclusive:')]
+        c.inconclusive.append('%d runs hit the 120 s drain watchdog (machine load); not a verdict' % len(inc))
     c.evaluations = c.stats.get('wire_messages', 0)
     c.distinct_names = ['wire_interleaving']
     c.extra['thread_sanitizer_build'] = True
